@@ -168,3 +168,49 @@ Check SrcTie2Events.EV_enc_fs_read_shape.
 Theorem C04_tie_EV_enc_fs_read_shape : ltac:(let t := type of SrcTie2Events.EV_enc_fs_read_shape in exact t).
 Proof. exact SrcTie2Events.EV_enc_fs_read_shape. Qed.
 Print Assumptions C04_tie_EV_enc_fs_read_shape.
+
+(* ---------- Tie A level 1, work package encT: the fail-safe decryptor (new: chunk 0 by load_in_cache_unauthenticated in
+   BOTH modes = open finding D2, translated literally; read: the two modes) translated from the source IS the model's
+   (theories/SrcTie3Enc.v), and THEOREM B holds of the translated reader (theories/SrcTie3EncC.v) ---------- *)
+From MLA Require SrcTie3Enc SrcTie3EncC.
+From MLAGen Require Src3e.
+(* authenticated mode, arbitrary inner bytes: any sequence of reads of the TRANSLATED reader delivers consecutive bytes of
+   auth_out w and then Ok(0) for ever: no data decoded after a refused chunk is ever delivered *)
+Theorem C04_fs_auth_no_later_data_src :
+  forall (S : Stream) (CHUNK TAG : N) (ks : N -> N -> N) (tagc : N -> bytes -> bytes) (site_index : N), 0 < CHUNK ->
+  forall (w : bytes) (R : st S -> N -> Prop), Seekable S w R -> len w / (CHUNK + TAG) + 2 <= 2 ^ 32 ->
+  forall fuel,
+    RdRefines (Src3e.fs_read S CHUNK TAG ks tagc (rd_fuel CHUNK TAG) 416 site_index 419 (Datatypes.S (Datatypes.S fuel)))
+      (auth_out CHUNK TAG ks tagc w)
+      (fun l q => SrcTie3Enc.unauth_of (Src3e.fs_mode S l) = false /\
+                  FsInvA CHUNK TAG ks tagc S w R (SrcTie3Enc.abs_fs S l) q).
+Proof. exact SrcTie3EncC.fs_auth_refines_src. Qed.
+Print Assumptions C04_fs_auth_no_later_data_src.
+Check SrcTie3Enc.eload_unauth_src.
+Theorem C04_tie_eload_unauth_src : ltac:(let t := type of SrcTie3Enc.eload_unauth_src in exact t).
+Proof. exact SrcTie3Enc.eload_unauth_src. Qed.
+Print Assumptions C04_tie_eload_unauth_src.
+Check SrcTie3Enc.enc_read_internal_unauth_sim.
+Theorem C04_tie_enc_read_internal_unauth_sim : ltac:(let t := type of SrcTie3Enc.enc_read_internal_unauth_sim in exact t).
+Proof. exact SrcTie3Enc.enc_read_internal_unauth_sim. Qed.
+Print Assumptions C04_tie_enc_read_internal_unauth_sim.
+Check SrcTie3Enc.enc_fs_open_src.
+Theorem C04_tie_enc_fs_open_src : ltac:(let t := type of SrcTie3Enc.enc_fs_open_src in exact t).
+Proof. exact SrcTie3Enc.enc_fs_open_src. Qed.
+Print Assumptions C04_tie_enc_fs_open_src.
+Check SrcTie3Enc.enc_fs_read_sim.
+Theorem C04_tie_enc_fs_read_sim : ltac:(let t := type of SrcTie3Enc.enc_fs_read_sim in exact t).
+Proof. exact SrcTie3Enc.enc_fs_read_sim. Qed.
+Print Assumptions C04_tie_enc_fs_read_sim.
+Check SrcTie3EncC.fs_unauth_refines_src.
+Theorem C04_tie_fs_unauth_refines_src : ltac:(let t := type of SrcTie3EncC.fs_unauth_refines_src in exact t).
+Proof. exact SrcTie3EncC.fs_unauth_refines_src. Qed.
+Print Assumptions C04_tie_fs_unauth_refines_src.
+Check SrcTie3EncC.fs_open_auth_src.
+Theorem C04_tie_fs_open_auth_src : ltac:(let t := type of SrcTie3EncC.fs_open_auth_src in exact t).
+Proof. exact SrcTie3EncC.fs_open_auth_src. Qed.
+Print Assumptions C04_tie_fs_open_auth_src.
+Check SrcTie3EncC.translated_fs_reader_runs.
+Theorem C04_tie_translated_fs_reader_runs : ltac:(let t := type of SrcTie3EncC.translated_fs_reader_runs in exact t).
+Proof. exact SrcTie3EncC.translated_fs_reader_runs. Qed.
+Print Assumptions C04_tie_translated_fs_reader_runs.
